@@ -288,7 +288,7 @@ func TestC20(t *testing.T) {
 
 // c20GenHistory draws one history (also used by the C15 harness, which runs the same code outside recovery)
 func c20GenHistory(r *Rec) []string {
-	denoms := []string{"atele", "uatom", "ibc/27394FB092D2ECCD56123C74F36E4C1F926001CEADA9CA97EA622B25F41E5EB2", "xyz", "", "A B", "stake"}
+	denoms := []string{"atele", "uatom", "ibc/27394FB092D2ECCD56123C74F36E4C1F926001CEADA9CA97EA622B25F41E5EB2", "xyz", "", "A B", "stake", "x.y_z-1:2", "a-b/c", "ab", "a:bc", "1abc"}
 	amt := func(pool string) string {
 		switch r.Rng.Intn(10) {
 		case 0:
